@@ -1,7 +1,7 @@
 CONSTANTS
   NThreads = 1
   MaxLen = 5
-  Ops = {"enable", "disable", "enter", "genter", "ret", "panic", "swallow", "sethook", "cont", "bt"}
+  Ops = {"enable", "disable", "enter", "genter", "ret", "panic", "swallow", "sethook", "bt"}
 SPECIFICATION Spec
 INVARIANTS Balance OwnMessage EscapeIffForwarded Isolation Emit
 CHECK_DEADLOCK FALSE
